@@ -4,14 +4,18 @@ open G_val
 (* X group (exporter) and F group (file reader) — see harness/cpp/drv_exp.inc *)
 let g_x : exporter option ref = ref None
 let g_outputs : n list list ref = ref []      (* closed outputs, in closing order *)
-let reset () = g_x := None; g_outputs := []
+(* the history since 'X new', for 'X thm': the hypotheses and the right-hand sides of the end-to-end theorems, evaluated *)
+let g_pre : val0 option ref = ref None
+let g_hops : xop list ref = ref []            (* newest first *)
+let reset () = g_x := None; g_outputs := []; g_pre := None; g_hops := []
+let push o = g_hops := o :: !g_hops
 
 let fields = function VR l -> l | _ -> []
 let close_output (bytes : n list) = g_outputs := !g_outputs @ [bytes]; out ("out " ^ hex_of_bytes bytes)
 
 let cmd_exp (t : string list) =
   match t with
-  | "new" :: rest -> let (v, _) = parse_v rest in g_x := Some (x_new v); g_outputs := []; out "ok"
+  | "new" :: rest -> let (v, _) = parse_v rest in g_x := Some (x_new v); g_outputs := []; g_pre := Some v; g_hops := []; out "ok"
   | _ ->
   match !g_x with None -> out "? no exporter" | Some x ->
   match t with
@@ -20,19 +24,33 @@ let cmd_exp (t : string list) =
     let (rv, _) = parse_v r1 in
     let f = match o with "qr" -> buffer_qr | "aec" -> buffer_aec | _ -> buffer_mm in
     let (x', r) = f (fields rv) sv x in
+    push (match o with "qr" -> XQr (fields rv, sv) | "aec" -> XAec (fields rv, sv) | _ -> XMm (fields rv, sv));
     g_x := Some x'; out ("r " ^ dec_of_n r)
-  | ["wb"] -> let (x', r) = write_block x in g_x := Some x'; out ("r " ^ dec_of_n r)
+  | ["wb"] -> let (x', r) = write_block x in push XWb; g_x := Some x'; out ("r " ^ dec_of_n r)
   | ["rot"; e] ->
     let (x', r) = rotate (e <> "0") x in
+    push (XRot (e <> "0"));
     out ("r " ^ dec_of_n r);
     (match x'.x_closed with o :: _ -> close_output o | [] -> ());
     g_x := Some x'
-  | "addbp" :: rest -> let (v, _) = parse_v rest in let (x', r) = add_block_parameters v x in g_x := Some x'; out ("r " ^ dec_of_n r)
-  | ["setbp"; i] -> let (x', b) = set_active (n_of_dec i) x in g_x := Some x'; out (if b then "b 1" else "b 0")
+  | "addbp" :: rest -> let (v, _) = parse_v rest in let (x', r) = add_block_parameters v x in push (XAddBp v); g_x := Some x'; out ("r " ^ dec_of_n r)
+  | ["setbp"; i] -> let (x', b) = set_active (n_of_dec i) x in push (XSetBp (n_of_dec i)); g_x := Some x'; out (if b then "b 1" else "b 0")
   | ["counts"] ->
     let b = x.x_blk in
     out (Printf.sprintf "c %s %d %d %d %s %s" (dec_of_n (item_count b)) (List.length b.b_qrs) (List.length b.b_aecs) (List.length b.b_mms)
            (dec_of_n x.x_written) (dec_of_n x.x_active))
+  | ["thm"] ->
+    (match !g_pre with None -> out "? no history" | Some pre ->
+      let ops = List.rev !g_hops in
+      let x0 = x_new pre in
+      let xf = xrun x0 ops in
+      let bi b = if b then 1 else 0 in
+      out "thm";
+      out (Printf.sprintf "#hyp pre=%d adm=%d typed=%d" (bi (has_tyb filePreamble pre)) (bi (admb x0 N0 ops)) (bi (typed_xb xf)));
+      let rec take n l = if n <= 0 then [] else match l with [] -> [] | y :: r -> y :: take (n - 1) r in
+      let in_files l buffered = take (List.length l - List.length buffered) l in
+      List.iter (fun v -> out ("#lqr " ^ string_of_val v)) (in_files (log_qr x0 ops) xf.x_blk.b_qrs);
+      List.iter (fun v -> out ("#lmm " ^ string_of_val v)) (in_files (log_mm x0 ops) xf.x_blk.b_mms))
   | ["end"] -> close_output (destroy x); g_x := None
   | _ -> out "? unknown exporter op"
 
